@@ -252,7 +252,7 @@ def IR.splitBlock (ir : IR) (bId offset : Nat) : Except Err (IR × Nat × Bool) 
 /-! ### are_joinable / join_blocks -/
 
 inductive NoJoin
-  | types | interval | module | notAdjacent | alignment | symbols | outEdges | inEdges | function | entry
+  | types | interval | module | notAdjacent | endSymbols | alignment | symbols | outEdges | inEdges | function | entry
   deriving Repr, DecidableEq, Inhabited
 
 /-- the layout part of `are_joinable`: same kind, same interval, adjacent -/
@@ -280,6 +280,7 @@ def IR.notJoinable (ir : IR) (b1 b2 : Block) : Option NoJoin :=
   | some r => some r
   | none =>
     if b1.size == 0 then none
+    else if b2.size != 0 && (ir.refsTo b1.id).any (·.atEnd) then some .endSymbols
     else if (alookup b2.id ir.aux.alignment).getD 1 != 1 then some .alignment
     else if (ir.refsTo b2.id).any (fun s => !s.atEnd) then some .symbols
     else if b1.isCode then ir.codeJoinable b1 b2
